@@ -109,6 +109,12 @@ theorem process_output_pointwise {α σ} (mul : α → σ → α) (h w : Nat) (i
 theorem process_output_no_crop {α σ} (mul : α → σ → α) (img : Img α) (s : σ) :
     processSlice mul none img s = some (img.map fun row => row.map (mul · s)) := rfl
 
+/-- complex data: both parts are scaled by the slice's own factor, then the modulus is taken -/
+theorem process_output_complex_no_crop {α σ} (mul : α → σ → α) (modulus : α → α → α) (img : Img (α × α))
+    (s : σ) :
+    processSliceC mul modulus none img s =
+      some (img.map fun row => row.map fun p => modulus (mul p.1 s) (mul p.2 s)) := rfl
+
 /-! ## `predict`: sampler → loader → assembly loop -/
 
 theorem loaderBatches_vols {β} (fname : Nat → Nat) (out : Nat → β) (bs : Nat) (hbs : 0 < bs)
